@@ -36,9 +36,12 @@ fn restrict(n: usize) -> Result<usize, String> {
 }
 
 pub fn child(n: usize) {
-    let seen = match restrict(n) {
-        Ok(s) => s,
-        Err(e) => { println!("SKIP {}", e); return; }
+    // n = 0: no restriction (used for the build variants: the same checks in a binary compiled with other RUSTFLAGS)
+    let seen = if n == 0 { std::thread::available_parallelism().map_or(0, usize::from) } else {
+        match restrict(n) {
+            Ok(s) => s,
+            Err(e) => { println!("SKIP {}", e); return; }
+        }
     };
     let engines: Vec<&str> = ENGINES.iter().cloned().filter(|e| *e != "neon" || crate::neon_port::AVAILABLE).collect();
     let prims: Vec<(String, Box<dyn Prims>)> = engines.iter().map(|e| (e.to_string(), engine(e))).collect();
@@ -55,7 +58,7 @@ pub fn child(n: usize) {
         }
     }
     // end to end on every engine
-    for (k, r, sb) in [(1usize, 1usize, 64usize), (3, 2, 64), (5, 7, 130), (40, 20, 64), (200, 300, 66), (3000, 60, 64)] {
+    for (k, r, sb) in [(1usize, 1usize, 64usize), (3, 2, 64), (5, 1, 64), (4, 1, 130), (5, 7, 130), (40, 20, 64), (200, 300, 66), (3000, 60, 64)] {
         let originals: Vec<Vec<u8>> = (0..k).map(|_| rng.bytes(sb)).collect();
         let mut reference: Option<Vec<Vec<u8>>> = None;
         for e in engines.iter() {
@@ -64,6 +67,15 @@ pub fn child(n: usize) {
                 println!("FAIL with {} usable CPUs: encode {}:{} on {} failed", seen, k, r, e);
                 std::process::exit(1);
             };
+            if r == 1 {
+                // closed form of the code for one recovery shard: the XOR of the originals
+                let mut parity = vec![0u8; sb];
+                for o in &originals { for (p, b) in parity.iter_mut().zip(o.iter()) { *p ^= b; } }
+                if rec[0] != parity {
+                    println!("FAIL with {} usable CPUs: the single recovery shard of {}:1 ({} bytes) on {} is not the XOR of the originals", seen, k, sb, e);
+                    std::process::exit(1);
+                }
+            }
             match &reference {
                 None => reference = Some(rec.clone()),
                 Some(x) => if *x != rec {
